@@ -119,7 +119,10 @@ where
             // target is not visible to an input perturbation): delta g ~ 256 eps_b (|g| + 1) enters the
             // momentum with eps and the position with eps^2 at every step
             let gmax = ref_leapfrog_gmax(&target, x, p, eps_used, l);
-            let tol = 32.0 * (l as f64 + 1.0) * amp + 256.0 * eps_b * scale * (l as f64 + 1.0) + 256.0 * eps_b * (gmax + 1.0) * eps_used.abs() * (1.0 + eps_used.abs()) * (l as f64 + 1.0);
+            // an error injected at one step is amplified by the remaining steps: use the measured
+            // end-to-end amplification factor of the trajectory for every injection
+            let gain = (amp / (4.0 * eps_b * (maxabs(x).max(maxabs(p)) + 1e-3))).max(1.0);
+            let tol = 32.0 * (l as f64 + 1.0) * amp + 256.0 * eps_b * scale * (l as f64 + 1.0) + 256.0 * eps_b * (gmax + 1.0) * eps_used.abs() * (1.0 + eps_used.abs()) * (l as f64 + 1.0) * gain;
             // beyond the square root of the backend's largest number squares overflow in the backend
             // even where the f64 reference is finite: treated as "reference overflowed"
             let big = if eps_b > 1e-10 { 1e17 } else { 1e150 };
@@ -219,7 +222,8 @@ where
                     let goal = maxabs(x).max(maxabs(p)).max(1.0); // what the way back has to reproduce
                     let gmax = ref_leapfrog_gmax(&target, xp, &negp, eps_used, l);
                     // forward error is also present in (x', p'): the way back amplifies it once more
-                    let tol = 64.0 * (l as f64 + 1.0) * amp + 1024.0 * eps_b * scale * (l as f64 + 1.0) + 1024.0 * eps_b * (gmax + 1.0) * eps_used.abs() * (1.0 + eps_used.abs()) * (l as f64 + 1.0);
+                    let gain = (amp / (4.0 * eps_b * (maxabs(xp).max(maxabs(pp)) + 1e-3))).max(1.0);
+                    let tol = 64.0 * (l as f64 + 1.0) * amp + 1024.0 * eps_b * scale * (l as f64 + 1.0) + 1024.0 * eps_b * (gmax + 1.0) * eps_used.abs() * (1.0 + eps_used.abs()) * (l as f64 + 1.0) * gain;
                     let big = if eps_b > 1e-10 { 1e17 } else { 1e150 };
                     if !(tol < 0.05 * goal) || !rx.iter().chain(rp.iter()).all(|v| v.is_finite() && v.abs() < big) {
                         o.count("not_judged_ill_conditioned", 1);
@@ -238,7 +242,12 @@ where
             }
         }
     }
-    // (iv) rows never influence one another: same seed, one row perturbed, every other row bit-identical
+    // (iv) rows never influence one another: same seed (hence the same momenta and acceptance
+    // draws), one row's start perturbed, one step: every other row must come out the same. Not
+    // compared bitwise: the backend's vectorised kernels may sum in a different order when the
+    // buffers of the second run are aligned differently (observed: last-bit differences that vanish
+    // in a fresh process); a real leak between rows (a reduction over the batch axis, a blend with
+    // a batch mean) changes the other rows by far more than a few hundred ulps.
     if o.violations.is_empty() && nc >= 2 {
         let victim = (pu(params, "hseed") % nc as u64) as usize;
         let mut init2 = init.clone();
@@ -247,11 +256,7 @@ where
         }
         let run1 = |init: Vec<Vec<T>>| -> Option<Vec<f64>> {
             let mut hh = HMC::<T, B, GTarget>::new(target.clone(), init, eps_t, l).set_seed(pu(params, "hseed"));
-            let r = std::panic::catch_unwind(std::panic::AssertUnwindSafe(|| {
-                for _ in 0..steps.min(3) {
-                    hh.step();
-                }
-            }));
+            let r = std::panic::catch_unwind(std::panic::AssertUnwindSafe(|| hh.step()));
             r.ok().map(|_| tvals(&hh.positions))
         };
         if let (Some(a), Some(b)) = (run1(init.clone()), run1(init2)) {
@@ -259,13 +264,26 @@ where
                 if c == victim {
                     continue;
                 }
-                if a[c * d..(c + 1) * d].iter().zip(b[c * d..(c + 1) * d].iter()).any(|(x, y)| x.to_bits() != y.to_bits()) {
-                    o.violate("rows_interact", &format!("{site}:rows-influence-one-another"), format!("changing the start of chain {victim} changed the result of chain {c} (same momenta and acceptance draws)"));
-                    break;
+                let (ra, rb) = (&a[c * d..(c + 1) * d], &b[c * d..(c + 1) * d]);
+                if !ra.iter().chain(rb.iter()).all(|v| v.is_finite()) {
+                    continue;
+                }
+                let start: Vec<f64> = init[c].iter().map(|v| num_traits::ToPrimitive::to_f64(v).unwrap()).collect();
+                // either both runs kept the start (bitwise) or both moved to (nearly) the same point
+                let kept = |r: &[f64]| r.iter().zip(start.iter()).all(|(x, y)| x.to_bits() == y.to_bits());
+                let sc = maxabs(ra).max(maxabs(&start)).max(1.0);
+                let close = maxdiff(ra, rb) <= 4096.0 * eps_b * sc * (l as f64 + 1.0);
+                if kept(ra) != kept(rb) || !close {
+                    // a decision that sits on the rounding edge may flip: only a macroscopic difference counts
+                    if maxdiff(ra, rb) > 1e-2 * sc && kept(ra) == kept(rb) {
+                        o.violate("rows_interact", &format!("{site}:rows-influence-one-another"), format!("changing the start of chain {victim} changed the result of chain {c} from {ra:?} to {rb:?} (same momenta and acceptance draws)"));
+                        break;
+                    }
+                    o.count("row_independence_rounding_level_difference", 1);
                 }
             }
             o.count("probe_row_independence_checked", 1);
-            o.work += 2 * nc as u64 * steps.min(3) as u64;
+            o.work += 2 * nc as u64;
         }
     }
     o.count("probe_L_zero", (l == 0) as u64);
@@ -284,7 +302,7 @@ impl Scenario for HmcSteps {
         "hmc_steps"
     }
     fn runs(&self, tier: Tier) -> u64 {
-        tier.pick(2000, 100_000)
+        tier.pick(8000, 100_000)
     }
     fn generate(&self, g: &mut Gen, _t: Tier, _i: u64) -> Value {
         let l = match g.range(0, 9) {
